@@ -166,11 +166,14 @@ func withRulelessLists(texts []string, ids []int) (ts []string, is []int) {
 		return next
 	}
 	fillers := []string{"! nothing but a comment\n# and another one\n", "", "\n\n   \n"}
+	// (two in a row each time: skipping ONE list that has nothing to give is not the same as skipping all of them)
 	for i, t := range texts {
 		ts, is = append(ts, fillers[i%len(fillers)]), append(is, fresh())
+		ts, is = append(ts, fillers[(i+1)%len(fillers)]), append(is, fresh())
 		ts, is = append(ts, t), append(is, ids[i%len(ids)])
 	}
 	ts, is = append(ts, fillers[len(texts)%len(fillers)]), append(is, fresh())
+	ts, is = append(ts, fillers[(len(texts)+1)%len(fillers)]), append(is, fresh())
 	return ts, is
 }
 
